@@ -12,7 +12,7 @@ FLOOR = 2.3e-308  # I5 representability floor
 RULE = ("full product X x T: X = uniform grid on [-40,40] (step 1/8 quick, 1/64 thorough, phase set by the seed) "
         "plus, for each t, the +-8-ulp neighbourhoods and a +-0.5 window (step 1e-3) around every branch threshold "
         "(Phi(x-t)=eps, b=1e-5, b=eps, x=0); T = 10 per decade on [1e-8,1e-2] plus kappa/c values the models use; "
-        "phi_major on [-37.5,38] step 1/40; every point compared with 40-digit evaluations of the definitions; "
+        "plus the far field |x| in {40.5 .. 1.8e308} (20 magnitudes up to the largest finite float, both signs) x T against closed-form bounds; phi_major on [-37.5,38] step 1/40; every point compared with 40-digit evaluations of the definitions; "
         "non-trivial = point where at least one of the four functions is on a non-degenerate branch "
         "(value not exactly 0/1 and reference differs from 0)")
 ASSUMPTIONS = [
@@ -155,6 +155,52 @@ def eval_point(x, t):
     return msgs, nontrivial, stats
 
 
+X_FAR = [40.5, 41.0, 50.0, 100.0, 1e3, 1e5, 1e8, 1e10, 1e16, 1e50, 1e100, 1e153, 1.3e154, 1.35e154, 1.4e154, 1e155, 1e200, 1e300,
+         8.98846567431158e307, 1.7976931348623157e308]
+
+
+def eval_far(x, t):
+    """|x| > 40 up to the largest finite float ("every finite x"): the exact values are known in closed form there to far better than
+    the stated envelopes.  With u = |x| and the standard normal restricted to [u-t, u+t] (density ~ exp(-u s) on s in [-t, t] up to a
+    factor exp(-s^2/2) = 1 - O(t^2)): V~ = -sgn(x) E, E = u + 1/u - t coth(u t) (relative error O(t^2)); W~ = 1 - Var in [1 - t^2, 1].
+    z = x - t >= 40: 0 < V < phi(40) < 1e-347 and 0 < W < 1e-300 (below the representability floor I5).
+    z <= -40: V in (-z, -z + 1/|z|), W in (1 - 1/z^2, 1) (asymptotic branch: 2 percent)."""
+    C = common()
+    msgs = []
+    try:
+        gv, gw, gvt, gwt = C.v(x, t), C.w(x, t), C.vt(x, t), C.wt(x, t)
+    except Exception as e:
+        return [f"{type(e).__name__} at x={x!r} t={t!r}: {e}"]
+    for name, val in (("v", gv), ("w", gw), ("vt", gvt), ("wt", gwt)):
+        if not math.isfinite(val):
+            msgs.append(f"{name}({x!r},{t!r}) = {val!r} is not finite")
+    if msgs:
+        return msgs
+    mp = ref.mp_ctx().mp
+    X, T = mp.mpf(x), mp.mpf(t)
+    u = abs(X)
+    ut = u * T
+    E = u + 1 / u - T * (mp.coth(ut) if ut < 200 else 1)
+    Vt = -E if x > 0 else E
+    evt = float(abs(mp.mpf(gvt) - Vt))
+    if evt > 2 * t * (1 + 1e-3):
+        msgs.append(f"vt({x!r},{t!r}) = {gvt!r}, exact V~ = {float(Vt)!r}: |error| {evt:.3g} > 2t = {2*t:.3g}")
+    if abs(gwt - 1) > 20 * t + 1e-13 / t:
+        msgs.append(f"wt({x!r},{t!r}) = {gwt!r}, exact W~ in [1-t^2, 1]: |error| > 20t+1e-13/t = {20*t+1e-13/t:.3g}")
+    z = X - T
+    if z > 0:
+        if not (0 <= gv <= FLOOR):
+            msgs.append(f"v({x!r},{t!r}) = {gv!r}, exact V < 1e-347")
+        if not (-FLOOR <= gw <= 1e-300):
+            msgs.append(f"w({x!r},{t!r}) = {gw!r}, exact W < 1e-300")
+    else:
+        if abs(mp.mpf(gv) + z) > mp.mpf("0.02") * abs(z) + 1 / abs(z):
+            msgs.append(f"v({x!r},{t!r}) = {gv!r}, exact V = {float(-z)!r} (+ at most 1/|x-t|): relative error > 0.02 (asymptotic branch)")
+        if abs(gw - 1) > 0.02 + float(1 / (z * z)):
+            msgs.append(f"w({x!r},{t!r}) = {gw!r}, exact W in (1 - 1/(x-t)^2, 1): error > 0.02 (asymptotic branch)")
+    return msgs
+
+
 def eval_cdf(x):
     C = common()
     M = ref.mp_ctx()
@@ -183,6 +229,7 @@ def units(ctx):
     step, phase = grid(ctx)
     us = [("fn", t, step, phase, k, 2 if not ctx.thorough else 6) for t in T_values() for k in range(2 if not ctx.thorough else 6)]
     us += [("cdf", phase, k, 4) for k in range(4)]
+    us.append(("far",))
     us.append(("selfcheck",))
     return us
 
@@ -231,6 +278,17 @@ def run_unit(unit, ctx):
         acc.mx("selfcheck_mp_vs_decimal_rel", worst)
         acc.add("selfcheck_points", 64)
         return acc
+    if unit[0] == "far":
+        for t in T_values():
+            for x0 in X_FAR:
+                for x in (x0, -x0):
+                    acc.evals += 1
+                    acc.nontrivial += 1
+                    acc.add("far_points")
+                    for m in eval_far(x, t):
+                        acc.violation(PID, f"far:{m.split('(')[0]}:{'neg' if x < 0 else 'pos'}", m, {"fn": "far", "x": x.hex(), "t": t.hex()})
+        acc.sample({"fn": "v,w,vt,wt far", "x": X_FAR[-1], "t": T_values()[0]})
+        return acc
     if unit[0] == "cdf":
         _, phase, k, parts = unit
         xs = [-37.5 + (i + phase) / 40 for i in range(int(75.5 * 40) + 1)]
@@ -265,6 +323,8 @@ def run_unit(unit, ctx):
 def replay(case):
     if case["fn"] == "cdf":
         return eval_cdf(float.fromhex(case["x"]))[0]
+    if case["fn"] == "far":
+        return eval_far(float.fromhex(case["x"]), float.fromhex(case["t"]))
     return eval_point(float.fromhex(case["x"]), float.fromhex(case["t"]))[0]
 
 
